@@ -433,6 +433,8 @@ def c12_corpus(seed, tier):
     # long runs of consecutive stuck measurements (a standing clock, a clock ticking in equal steps) in the middle of
     # a collection: a stuck measurement is repeated however often it takes - no retry limit, no narrow retry counter
     stuck_run_cases(S, rng, (70, 260, 1030, 4100, 65600) if tier == "quick" else (64, 65, 70, 130, 255, 256, 260, 1030, 4100, 32800, 65535, 65536, 65600), 3)
+    for r in (1, 127, 128, 254, 255):       # the extreme round counts (u8)
+        stuck_run_cases(S, rng, (3,), r)
     # the one documented panic
     sc = jitter_script(rng, [("random", 100)])
     S.case("jitter set_rounds(0)", [{"op": "timer", "t": 1, "readings": [u64(x) for x in sc], "cont": CONT},
@@ -589,6 +591,29 @@ def c14_api_corpus(seed, tier):
     return S
 
 
+def c14_ctor_corpus(seed, tier):
+    """the source-RNG constructors of every seedable type: working sources (all ones, counting, random, a zero block
+    first), sources that fail at the first / second call with and without a partial write (validated by Trace_Alg)"""
+    rng = random.Random(seed * 1000003 + 1414)
+    S = Sched()
+    for kind in ALL_SEEDABLE:
+        n = FROMRNG_LEN.get(kind, SEEDLEN[kind])
+        nat = native_op(kind)
+        for fill in ("ones", "count", "random", "zero-then-random"):
+            b = {"ones": [0xFF] * (3 * n), "count": [(i * 7 + 1) & 0xFF for i in range(3 * n)], "random": [rng.getrandbits(8) for _ in range(3 * n)],
+                 "zero-then-random": [0] * n + [rng.getrandbits(8) | 1 for _ in range(2 * n)]}[fill]
+            for ctor, fallible in (("from_rng", False), ("try_from_rng", True)):
+                S.case("%s %s from a source of %s bytes" % (kind, ctor, fill),
+                       [{"op": "src", "s": 1, "bytes": b, "fallible": fallible}, {"op": ctor, "g": 1, "kind": kind, "s": 1}, {"op": nat, "g": 1, "n": 3}],
+                       weight=20 + (600 if kind.startswith("Isaac") else 0))
+        for fail_at, partial in ((1, 0), (1, n - 1), (2, 3)):
+            S.case("%s try_from_rng from a source failing at call %d (partial %d)" % (kind, fail_at, partial),
+                   [{"op": "src", "s": 1, "bytes": [rng.getrandbits(8) for _ in range(3 * n)], "fallible": True, "fail_at": fail_at, "partial": partial},
+                    {"op": "try_from_rng", "g": 2, "kind": kind, "s": 1}, {"op": "try_from_rng", "g": 3, "kind": kind, "s": 1}],
+                   weight=20 + (600 if kind.startswith("Isaac") else 0))
+    return S
+
+
 def c14_alg_corpus(seed, tier):
     rng = random.Random(seed * 1000003 + 16)
     S = Sched()
@@ -710,7 +735,6 @@ def c13_corpus(seed, tier, cases):
         for nback in ((1, 3) if tier == "quick" else (1, 2, 3)):
             t = rng.getrandbits(40) + (1 << 20)
             rd = [t]
-            prog = [2 * nback - 1 - 2 * j for j in range(-2, nback)]          # e.g. 9, 7, 5, 3, 1 ... wait: ends with nback negative terms
             prog = [2 * k + 1 for k in range(2, -1, -1)] + [-(2 * k + 1) for k in range(nback)]     # 5, 3, 1, -1, (-3, (-5))
             for j in range(1, 401):
                 i = j - 101
@@ -727,6 +751,55 @@ def c13_corpus(seed, tier, cases):
                 rd += [time, (time + 1) & M64, (time + 2) & M64, time2]
                 t = max(time, time2)
             add("tt %d lively probes, progression through zero with %d backward, then constant" % (L, nback), rd)
+    # one anomaly in an otherwise healthy timer, at the first / a middle / the last warm-up probe and at the first / last
+    # evaluated probe: a zero first or second reading, a zero delta (equal readings, and readings 2^32 apart)
+    for j0 in (1, 50, 100, 101, 400):
+        for what in ("time=0", "time2=0", "delta=0", "delta=2^32"):
+            t = rng.getrandbits(40) + (1 << 20)
+            rd = [t]
+            for j in range(1, 401):
+                d = 1000 + 37 * (j % 5) + (j * j) % 23 + (20 if j % 2 else 0)
+                time = (t + 977) & M64
+                if j == j0:
+                    if what == "time=0":
+                        time = 0
+                    elif what == "delta=0":
+                        d = 0
+                    elif what == "delta=2^32":
+                        d = 1 << 32
+                time2 = (time + d) & M64
+                if j == j0 and what == "time2=0":
+                    time2 = 0
+                rd += [time, (time + 1) & M64, (time + 2) & M64, time2]
+                t = max(time, time2, t)
+            add("tt healthy timer with %s at probe %d" % (what, j0), rd)
+    # exact sums of the delta variations around the boundaries of the estimate: sum = 300 m + f
+    for m in ((1, 2, 3, 15, 16) if tier == "quick" else (1, 2, 3, 4, 7, 8, 15, 16, 31, 32, 63, 64)):
+        for f in (0, 100, 150, 200, 299):
+            T = 300 * m + f
+            x = 7
+            w = [(T - x) // 299] * 299
+            for k in range((T - x) - sum(w)):
+                w[(k * 7) % 299] += 1
+            t = rng.getrandbits(40) + (1 << 20)
+            rd = [t]
+            d = x
+            for j in range(1, 401):
+                i = j - 101
+                if i < 0:
+                    dd = 1000 + 37 * j + (j * j) % 17
+                elif i == 0:
+                    dd = d
+                else:
+                    d = d + w[i - 1] if i % 2 else d - w[i - 1]
+                    if d <= 0:
+                        d += 2 * w[i - 1]
+                    dd = d
+                time = (t + 5000) & M64
+                time2 = (time + dd) & M64
+                rd += [time, (time + 1) & M64, (time + 2) & M64, time2]
+                t = time2
+            add("tt sum of delta variations = 300*%d + %d" % (m, f), rd)
     # seeded random timers
     for i in range(6 if tier == "quick" else 500):
         style = rng.choice(["jit", "coarse", "const", "lin", "wild"])
@@ -895,11 +968,13 @@ def block_alg_corpus(kind, seed, tier, n_unit_words, long_words, salt):
         sd = [rng.getrandbits(8) for _ in range(32)]
         ops = [{"op": "from_seed", "g": 1, "kind": kind, "seed": sd}]
         left = bulk[1]
+        if r == 0 and kind.startswith("Isaac"):
+            left = 70000          # one run past block 256 (word 65 536): a block counter reduced like an index shows there
         while left > 0:
             n = min(left, 1024)
             ops.append({"op": nat, "g": 1, "n": n})
             left -= n
-        S.case("%s bulk run %d" % (kind, r), ops, weight=bulk[1] + 300)
+        S.case("%s bulk run %d" % (kind, r), ops, weight=(70000 if r == 0 and kind.startswith("Isaac") else bulk[1]) + 300)
     return S
 
 
